@@ -238,6 +238,18 @@ pub fn errors_len() -> usize {
     with_state(|st| st.errors.len())
 }
 
+/// Called by payload destructors: a destructor must never run on a value whose block was already released.
+pub fn note_destructed_at(addr: usize, what: &str) {
+    bypass(|| {
+        with_state(|st| {
+            if let Some(b) = st.blocks.iter().rev().find(|b| b.addr <= addr && addr < b.addr + b.size.max(1)) {
+                if b.freed {
+                    st.errors.push(format!("destructor of {what} ran on a value at {addr:#x} inside a block that was already released ({:#x}, size {})", b.addr, b.size));
+                }
+            }
+        })
+    })
+}
 pub fn take_errors() -> Vec<String> {
     with_state(|st| std::mem::take(&mut st.errors))
 }
